@@ -1224,7 +1224,15 @@ func (s *Store) AssignManualServiceVIPs(idx uint64, psn structs.PeeredServiceNam
 		}
 	}
 
-	return true, maps.SliceOfKeys(modifiedEntries), nil
+	// The list is part of the raft apply result: build it in a deterministic order instead of map iteration order.
+	unassignedFrom := maps.SliceOfKeys(modifiedEntries)
+	sort.Slice(unassignedFrom, func(i, j int) bool {
+		if unassignedFrom[i].Peer != unassignedFrom[j].Peer {
+			return unassignedFrom[i].Peer < unassignedFrom[j].Peer
+		}
+		return unassignedFrom[i].ServiceName.String() < unassignedFrom[j].ServiceName.String()
+	})
+	return true, unassignedFrom, nil
 }
 
 func updateVirtualIPMaxIndexes(txn WriteTxn, idx uint64, partition, peerName string) error {
